@@ -229,6 +229,16 @@ pub mod offers {
 		key.verif_offers_base_key()
 	}
 
+	/// `OfferContents::verify_using_metadata` (`nonce == None`) / `verify_using_recipient_data` on
+	/// an offer's own bytes: which records the stateless check covers; `Ok(Some(secret))` when
+	/// signing keys were derived.
+	pub fn offer_verify(
+		offer: &crate::offers::offer::Offer, nonce: Option<crate::offers::nonce::Nonce>,
+		key: &ExpandedKey,
+	) -> Result<Option<[u8; 32]>, ()> {
+		offer.verif_verify(nonce, key)
+	}
+
 	/// `signer::verify_recipient_metadata` / `signer::verify_payer_metadata_inner` over all
 	/// records of `tlv_bytes`; `Ok(Some(secret))` when signing keys were derived.
 	pub fn verify_metadata(
